@@ -176,9 +176,16 @@ fn gen_count(tier: &str, rng: &mut Rng, out: &mut Vec<String>) {
             // large P only a few times per cluster size and with a small rf; B = 65535 not together with a huge rf
             if p > 2048 {
                 bigp += 1;
-                if !thorough || bigp > 1 { p = 1 + p % 2048; } else { rf = 1 + rf % 3; }
+                if !thorough || bigp > 1 || n <= 16 { p = 1 + p % 2048; } else { rf = 1 + rf % 3; }
             }
             if b > 4096 && rf > 12 { b = 1 + b % 4096; }
+            // every connect re-runs calculate_assigned_partitions (B x rf) and the recalculation (P x rf)
+            let connects = if n <= 16 { n as u64 } else { 2 };
+            let erf = rf.min(n as u64);
+            let cost = |b: u64, p: u64| 3 * connects * (b * erf.min(255) + p * (2 + erf.min(12)));
+            let cap = if thorough { 6_000_000 } else { 1_500_000 };
+            if cost(b, p) > cap { b = 1 + b % 1024; }
+            if cost(b, p) > cap { p = 1 + p % 2048; }
             let a = rng.below(n as u64);
             let nodes = [a, (a + 1) % n as u64, (a + rf.min(n as u64)) % n as u64];
             let mut nodes = nodes.to_vec(); nodes.sort(); nodes.dedup();
